@@ -66,6 +66,7 @@ func init() {
 			{ID: "C03-R34", Title: "nesting counters of the VM are kept on every path", Floor: 1, Run: nestingCountersAreKeptOnEveryPath},
 			{ID: "C03-R35", Title: "levels added in a loop stay counted", Floor: 1, Run: levelsAddedInALoopStayCounted},
 			{ID: "C03-R36", Title: "parse results are not asserted blind", Floor: 1, Run: parseResultsAreNotAssertedBlind},
+			{ID: "C03-R37", Title: "what a walk enters it leaves on every path (shared with C19-R24)", Floor: 2, Run: whatIsEnteredIsLeft},
 		},
 	})
 }
